@@ -29,14 +29,33 @@ def _freeze_value(x):
         return x
 
 
+def _type_signature(x):
+    if isinstance(x, tuple):
+        return tuple(_type_signature(v) for v in x)
+    elif isinstance(x, frozendict.frozendict):
+        return frozendict.frozendict({k: _type_signature(v) for k, v in x.items()})
+    else:
+        return type(x)
+
+
 def _freeze_args(func):
     @functools.wraps(func)
     def func_frozen(*args, **kwargs):
         args = [_freeze_value(a) for a in args]
         kwargs = {k: _freeze_value(v) for k, v in kwargs.items()}
-        return func(*args, **kwargs)
+        # Equal values of different types (e.g. 2, 2.0 and True) must not share a cache entry
+        argtypes = _type_signature((tuple(args), frozendict.frozendict(kwargs)))
+        return func(*args, _einx_argtypes=argtypes, **kwargs)
 
     return func_frozen
+
+
+def _ignore_argtypes(func):
+    @functools.wraps(func)
+    def func_without_argtypes(*args, _einx_argtypes=None, **kwargs):
+        return func(*args, **kwargs)
+
+    return func_without_argtypes
 
 
 def _with_retrace_warning(func):
@@ -97,6 +116,7 @@ def _with_retrace_warning(func):
 # 2. warns if there are more than EINX_WARN_ON_RETRACE cache failures from the same call site
 def lru_cache(func):
     func = _with_retrace_warning(func)
+    func = _ignore_argtypes(func)
 
     if max_cache_size > 0:
         func = functools.lru_cache(maxsize=max_cache_size if max_cache_size > 0 else None)(func)
